@@ -548,6 +548,7 @@ contract(
     })},
 )
 
+_HASN = "any(b.name == anchor_name for b in glyphSet.glyphs[{c}.baseGlyph].anchors)"
 # (b) ANY number of base components.  The numbered ligature anchors (name_1, name_2, ... when several bases carry the anchor) need
 #     facts about every earlier entry of `anchors` across two loops; the two-component decision table was tried and left three
 #     obligations at solver timeouts, so this case is: memory-safety proved for all inputs + the exact result BOUNDED (run-time
@@ -585,6 +586,8 @@ contract(
         # no name is dropped, and every NEW name is anchor_name itself or an extension of it (anchor_name + "_" + number)
         "keeps-existing-names": "all(k in anchor_data for k in old(anchor_data))",
         "new-names-extend-the-anchor-name": "all(k in old(anchor_data) or k.startswith(anchor_name) for k in anchor_data)",
+        # if some component's base carries an anchor of that name, a key extending the name IS there afterwards (the name itself, or name_1)
+        "adds-when-present": f"implies(any({_HASN.format(c='components[a]')} for a in range(len(components))), any(k.startswith(anchor_name) for k in anchor_data))",
     },
     bounded_ensures={"exact-result": "dict(anchor_data) == expected_anchor_data(old(dict(anchor_data)), glyphSet, components, anchor_name)"},
     canaries={"never-adds": "all(k in old(anchor_data) for k in anchor_data)"},
@@ -592,13 +595,19 @@ contract(
     ghost_vars={"AD0": (_AD, "anchor_data")},
     merge_branches=False,  # several / one / no base anchor of that name: three separate paths
     loops={
-        "for component in components": Loop(index="ci", invariants={"found-have-the-name": "all(anchors[k][0].name == anchor_name for k in range(len(anchors)))"}),
-        "for anchor in glyphSet[component.baseGlyph].anchors": Loop(invariants={"found-have-the-name": "all(anchors[k][0].name == anchor_name for k in range(len(anchors)))"}),
+        "for component in components": Loop(index="ci", invariants={
+            "found-have-the-name": "all(anchors[k][0].name == anchor_name for k in range(len(anchors)))",
+            "found-when-present": f"implies(any({_HASN.format(c='components[a]')} for a in range(ci)), len(anchors) >= 1)"}),
+        "for anchor in glyphSet[component.baseGlyph].anchors": Loop(index="ai", invariants={
+            "found-have-the-name": "all(anchors[k][0].name == anchor_name for k in range(len(anchors)))",
+            "not-yet": "all(glyphSet.glyphs[component.baseGlyph].anchors[q].name != anchor_name for q in range(ai))",
+            "found-when-present": f"implies(any({_HASN.format(c='components[a]')} for a in range(ci)), len(anchors) >= 1)"}),
         "for (i, (anchor, component)) in enumerate(anchors)": Loop(
             index="ei",
             invariants={
                 "kept": "all(k in anchor_data for k in AD0)",
                 "new-extend": "all(k in AD0 or k.startswith(anchor_name) for k in anchor_data)",
+                "first-added": "implies(ei > 0, (anchor_name + '_1') in anchor_data)",
             },
         ),
     },
@@ -668,6 +677,7 @@ contract(
     ensures={
         # (for the arbitrary name `probe`, see _ProbeName)  never adds or removes a name ...
         "same-names": "(probe in anchor_data) == (probe in old(anchor_data))",
+        "keys-kept": "all(k in anchor_data for k in old(anchor_data))",  # (the half of it that callers need for EVERY key, as a quantified clause)
         # ... a value only changes to where the mark component carries its own base anchor of that name (mark must have `_name` too),
         # under the component's FULL matrix
         "moved-only-to-carried-position": "implies(probe in anchor_data, anchor_data[probe] == old(anchor_data)[probe] or " + _MOVED_TO.format(k="probe") + ")",
@@ -683,6 +693,7 @@ contract(
             index="m0", seq="AS",
             invariants={
                 "same-names": "(probe in anchor_data) == (probe in AD0)",
+                "keys-kept": "all(k in anchor_data for k in AD0)",
                 # wq: position of the anchor that moved `probe` last, -1 if none did (ghost witness for the ∃ of the postcondition)
                 "witness-range": "-1 <= wq and wq < m0",
                 "witness-name": "implies(wq >= 0, probe in anchor_data and AS[wq].name == probe)",
@@ -996,6 +1007,9 @@ def _sorted_items(ex, st, args, kwargs, node):
     st.assume(z3.ForAll([x], z3.Contains(ks, z3.Unit(x)) == z3.Select(s.dom(d), x)))
     st.assume(z3.ForAll([i], z3.Implies(z3.And(0 <= i, i < z3.Length(ks)), z3.Select(s.dom(d), ks[i]))))
     st.assume((z3.Length(ks) == 0) == (s.dom(d) == z3.K(t.k.sort(), z3.BoolVal(False))))  # no pairs iff the dict is empty
+    # every key of the dict sits at some position of the list (Skolem function; triggered by `key in dict` terms only)
+    pos = z3.Function(fresh_name("sorted_pos"), t.k.sort(), z3.IntSort())
+    st.assume(z3.ForAll([x], z3.Implies(z3.Select(s.dom(d), x), z3.And(0 <= pos(x), pos(x) < z3.Length(ks), ks[pos(x)] == x)), patterns=[z3.Select(s.dom(d), x)]))
     item = lambda j: Val(PYOBJ, None, (Val(t.k, ks[j]), Val(t.v, z3.Select(s.map(d), ks[j]))), True)  # noqa: E731
     out = IterInfo("indexed", n=z3.Length(ks), item=item, seqval=Val(List(t.k), ks))
     return Val(PYOBJ, None, ("iterinfo", out, None), True)
@@ -1043,10 +1057,17 @@ contract(
     },
     canaries={"never-adds": "len(composite.anchors) == len(old(composite.anchors))"},
     locals={"base_components": List(Ref("C15_AComponent")), "mark_components": List(Ref("C15_AComponent")), "anchor_names": Set(STR), "to_add": _AD, "glyph": Ref("C15_Glyph")},
-    ghost_vars={"A0": (List(Ref("C15_Anchor")), "composite.anchors"), "AP": (List(Ref("C15_Anchor")), "[]")},
-    ghost={"anchor_dict = {'name': name, 'x': x, 'y': y}": ["AP = composite.anchors"]},  # AP: the anchor list just before the next append (snapshot)
-    alias_ok=("AP", "A0"),
+    ghost_vars={"A0": (List(Ref("C15_Anchor")), "composite.anchors"), "AP": (List(Ref("C15_Anchor")), "[]"), "ANF": (Set(STR), "set()"), "hit": (BOOL, "False")},
+    ghost={"anchor_dict = {'name': name, 'x': x, 'y': y}": ["AP = composite.anchors"],  # AP: the anchor list just before the next append (snapshot)
+           "if mark_components and (not base_components) and _is_ligature_mark(composite):": ["ANF = anchor_names"],  # the collected names, final
+           "composite.appendAnchor(anchor_dict)": ["hit = hit or name.startswith(probe)"]},  # hit: an appended anchor's name starts with `probe`
+    alias_ok=("AP", "A0", "ANF"),
     hints={
+        # SATURATED — an internal assertion at the end of the function (ghost vocabulary cannot appear in a postcondition), proved for all
+        # inputs, for the arbitrary name `probe`; ANF = the anchor names collected from the base components: afterwards the composite has,
+        # for every collected name, an anchor whose name STARTS WITH it (it had one, or one was appended: `name`, or `name_1`, `name_2`, ..).
+        # The code's guard (`startswith`) therefore blocks every collected name from then on: nothing is left to add for this glyph.
+        "if to_add:": ["implies(probe in ANF, any(a.name.startswith(probe) for a in composite.anchors))"],
         # one append, step by step: the list grows by one NEW anchor carrying `name`; everything before it stays; so do the earlier new names
         "composite.appendAnchor(anchor_dict)": [
             "len(composite.anchors) == len(AP) + 1 and composite.anchors[len(AP)].name == name",
@@ -1057,7 +1078,8 @@ contract(
         ],
         "mark_components.remove(component)": [_PRESENT.format(l="mark_components")],
         # after the promotion of a mark to a base (or without it): every component in either list still has its base in the glyph set
-        "if mark_components and (not base_components) and _is_ligature_mark(composite):": [_PRESENT.format(l="mark_components"), _PRESENT.format(l="base_components")],
+        "if mark_components and (not base_components) and _is_ligature_mark(composite):": [_PRESENT.format(l="mark_components"), _PRESENT.format(l="base_components"),
+                                                                                            "implies(probe in anchor_names, any(any(b.name == probe for b in glyphSet.glyphs[c.baseGlyph].anchors) for c in base_components))"],
     },
     loops={
         "for component in composite.components": Loop(
@@ -1069,10 +1091,16 @@ contract(
                 "own-anchors": "composite.anchors == A0",
                 "bases-present": _PRESENT.format(l="base_components"),
                 "marks-present": _PRESENT.format(l="mark_components"),
+                # every collected name comes from an anchor of some base component's glyph; those glyphs are processed (so: not touched again)
+                "names-have-a-source": "implies(probe in anchor_names, any(any(b.name == probe for b in glyphSet.glyphs[c.baseGlyph].anchors) for c in base_components))",
+                "bases-processed": "all(c.baseGlyph in processed for c in base_components) and all(c.baseGlyph in processed for c in mark_components)",
             },
         ),
-        "for anchor_name in anchor_names": Loop(done="AN", invariants={"no-override": _NO_OVERRIDE}),
-        "for component in mark_components": Loop(index="mi", seq="MCS", invariants={"no-override": _NO_OVERRIDE, "marks-present": "all(MCS[k].baseGlyph in glyphSet.glyphs for k in range(len(MCS)))"}),
+        "for anchor_name in anchor_names": Loop(done="AN", invariants={
+            "no-override": _NO_OVERRIDE,
+            "saturating": "implies(probe in AN, any(a.name.startswith(probe) for a in A0) or any(k.startswith(probe) for k in to_add))"}),
+        "for component in mark_components": Loop(index="mi", seq="MCS", invariants={"no-override": _NO_OVERRIDE,
+            "saturating": "implies(probe in ANF, any(a.name.startswith(probe) for a in A0) or any(k.startswith(probe) for k in to_add))", "marks-present": "all(MCS[k].baseGlyph in glyphSet.glyphs for k in range(len(MCS)))"}),
         "for (name, (x, y)) in sorted(to_add.items())": Loop(
             index="si", seq="KS",
             invariants={
@@ -1081,6 +1109,8 @@ contract(
                 "new-names-are-keys": "all(composite.anchors[k].name in to_add for k in range(len(A0), len(composite.anchors)))",
                 "no-override": _NO_OVERRIDE,
                 "untouched": _UNTOUCHED,
+                "hit-means-appended": "implies(hit, any(composite.anchors[k].name.startswith(probe) for k in range(len(A0), len(composite.anchors))))",
+                "no-hit-so-far": "implies(not hit, all(not KS[m].startswith(probe) for m in range(si)))",
             },
         ),
     },
